@@ -57,7 +57,8 @@ CHECKS = {
     "C08": ("exploration", "E1",
             "exhaustive enumeration of messages / error patterns within stated families against two "
             "independent CRC implementations",
-            "calc_crc24q == long-division and table references on all messages of <= 2 bytes, every "
+            "calc_crc24q == long-division and table references on all messages of <= 2 bytes, on ALL "
+            "2^24 register states x input byte (every 4-byte message with a given last byte), every "
             "(position, byte) on zero/one backgrounds, every single-bit message per length; parse "
             "rejects every 1-bit error at every position for every frame length, all 2-bit errors on "
             "short frames, 3-bit, odd and burst families",
@@ -80,8 +81,9 @@ CHECKS = {
             "explicit-state BFS over the real SocketWrapper (all segmentations x read sizes x fault "
             "placements to a fixed point) + E1 over the reader on a socket",
             "state graph of the real SocketWrapper closed under all recv() answers (any split, close, "
-            "timeout, OS error) and all client reads; invariants checked in every state; reader over a "
-            "socket subclass compared with BytesIO for all segmentations of short streams",
+            "timeout, OS error) and all client reads; invariants checked in every state; long-haul "
+            "histories (70 000+ bytes through one wrapper); reader over a socket subclass compared with "
+            "BytesIO for all segmentations of short streams",
             "source length and fault count bounded; canonical state = all instance attributes + cursor"),
     "C12": ("model_checking", "E2",
             "explicit-state exploration of the real dechunking wrapper over all compositions of the "
@@ -95,7 +97,8 @@ CHECKS = {
             "two-thread scheduler enumerating all schedules up to a pre-emption bound",
             "all ordered pairs of corpus parses and depth-3 histories over a conflict set (tables "
             "unchanged, result == fresh-process reference); two real threads under a baton scheduler, "
-            "every schedule with <= b pre-emptions at line granularity (opcode granularity in thorough)",
+            "every schedule with <= b pre-emptions at line granularity (bytecode granularity for some "
+            "pairs), warm and - each schedule in a freshly forked child - cold, followed by sequential parses",
             "two threads; pre-emption bound; line-level points coarser than bytecode"),
     "C14": ("exploration", "corpus",
             "exhaustive enumeration of (message, attribute name, value kind) and ordered pairs",
